@@ -16,6 +16,9 @@
     start/end, a recording reporter logs the reports.  The Lean driver (`model: delayed`) runs `process`
     (_filter_tasks' delayed branches) and then decides whether the observed trace is a trace of the run model under
     SOME schedule (DFS over completion order / send(None) / waiting_me order); exit code and error class must agree.
+    Cases in which a created task has `setup` / `calc_dep` / `getargs` / a wildcard task_dep (request field `x`) are
+    decided by the same search over the extended system `Model/DelayedX.lean` (`Driver/DelayedX.lean`); the answer
+    carries `x_features` (which new transitions the accepting run took) for the evidence counters `X:…`.
 (P) Lean predicates on the implementation's trace: onceOK, afterOK, obeyOK (ordering + once-only over the dynamic
     dependency table), utdOK, targetOK (nothing outside the closure of the selection is executed; producer of a
     selected target processed; not-found error iff a target has no producer).
@@ -31,6 +34,7 @@ import json
 import os
 import random
 import re
+import fnmatch
 import sys
 import time
 
@@ -81,6 +85,12 @@ META = {
                    'reachable from the selection through task_dep edges of the node-held Task objects or of the '
                    'initial table.  "The producer is eventually processed" (liveness half of targetOK) is a monitor '
                    'on every implementation trace.  '
+                   'Wave 5, extended system M1+X (created tasks with setup / calc_dep / getargs / wildcard edges): '
+                   'C15X_created_start_after_all_partial (a step that writes `start n` is a select_task on a node not '
+                   'marked bad, and for a task with setup-tasks it is the SECOND selection) and '
+                   'C15X_dispatcher_writes_only_creator are proved; the full ordering statement '
+                   'C15X_created_start_after_all_full is stated, not proved: it is evaluated by the driver on the '
+                   'accepting model run of every such case and by the monitor obeyOK on every implementation trace.  '
                    'The model is tied to doit on every run by trace acceptance.'),
     'level_note': ('created_obey is proved without extra hypotheses for the node-held Task objects and under noRedefB '
                    '(evaluated on every case: hyp:noredef) for TaskControl.tasks; self.tasks[nt.name] = nt has no '
@@ -101,9 +111,12 @@ META = {
              'model per run; '
              'creator variants (wave 4): the creator yields dicts | RETURNS one dict | a Task object | None | raises; '
              'bound-method creator; @task_params (default / value on the command line); executed = plain task | static '
-             'group | sub-task | delayed task | unknown task; created tasks with uptodate callables (modelled), setup / '
-             'calc_dep / getargs from a sub-task of the delayed group (outside M1+: monitors-only, counted as '
-             '`monitors-only(outside M1+):…`); '
+             'group | sub-task | delayed task | unknown task; created tasks with uptodate callables (modelled); '
+             'wave 5: created tasks with setup / calc_dep / getargs from a sub-task of the delayed group run K through '
+             'the extended model M1+X (Model/DelayedX.lean; counters `K:extended-model(M1+X):…`, `X:…`); only a '
+             'creator that raises stays monitors-only (`monitors-only(outside M1+):creator-raises`); '
+             'wave 6: two INSTANCES of one class exporting the same @create_after method (`twin_of`), created tasks '
+             'with a wildcard task_dep (expanded at creation time, repair 71e546b; M1+X); '
              'non-trivial = a creator was evaluated; distinct = distinct rendered case + schedule'),
     'assumptions': ['up-to-date status is produced by uptodate=[True] on a fresh DB with existing targets',
                     'process-mode runs are sampled'],
@@ -158,6 +171,17 @@ def extra_deps(cr, T, y):
     return out
 
 
+def x_edges(cr, T, y):
+    """the edges of a yield the extended Lean model M1+X (Model/DelayedX.lean) reads: (`setup_tasks` as
+    Task.__init__ leaves them: `setup`, then -- `_init_getargs` / `result_dep(setup_dep=True)` -- the sources of getargs
+    that are not listed in `setup`; `calc_dep`)"""
+    setup = [ref_name(cr, T, r) for r in (y.get('setup') or [])]
+    for arg, src in sorted((y.get('getargs') or {}).items()):
+        if ref_name(cr, T, src) not in setup:
+            setup.append(ref_name(cr, T, src))
+    return setup, [cd['task'] for cd in y.get('calc_dep') or []]
+
+
 def make_tasks(cr, T):
     """what generate_tasks(T, creator()) returns: list of dicts name/deps/fileDep/targets/group (OrderedDict order).
     `ret`: the creator is a generator of dicts ('gen'), returns ONE dict ('dict': named by its basename, else by T),
@@ -170,7 +194,8 @@ def make_tasks(cr, T):
         name = y['basename'] if y.get('basename') else T
         return [{'name': name, 'deps': list(y['task_dep']), 'fileDep': list(y.get('file_dep', [])),
                  'targets': list(y['targets']), 'group': False, 'utd': oracle_utd(y), 'fails': y['fails'],
-                 'extra': extra_deps(cr, T, y)}]
+                 'extra': extra_deps(cr, T, y), 'setup': x_edges(cr, T, y)[0], 'calcDep': x_edges(cr, T, y)[1],
+                 'wild': list(y.get('wild') or [])}]
     out = {}
     order = []
     for y in cr['yields']:
@@ -185,22 +210,32 @@ def make_tasks(cr, T):
             order.append(name)
         out[name] = {'name': name, 'deps': list(y['task_dep']), 'fileDep': list(y.get('file_dep', [])),
                      'targets': list(y['targets']), 'group': False, 'utd': oracle_utd(y), 'fails': y['fails'],
-                     'extra': extra_deps(cr, T, y)}
+                     'extra': extra_deps(cr, T, y), 'setup': x_edges(cr, T, y)[0], 'calcDep': x_edges(cr, T, y)[1],
+                     'wild': list(y.get('wild') or [])}
     if not order:
         return [{'name': T, 'deps': [], 'fileDep': [], 'targets': [], 'group': True, 'extra': []}]
     return [out[n] for n in order]
 
 
 def unmodelled(case):
-    """shapes outside the Lean model M1+ (task_dep edges only): the case runs monitors-only, and is counted"""
+    """shapes outside the Lean models: the case runs monitors-only, and is counted.  Wave 5: created tasks with
+    setup / calc_dep / getargs are inside the extended model M1+X (`extended(case)`); what is left is a creator that
+    raises (the exception aborts the run; no model of the traceback path)."""
     why = set()
     for cr in case['creators']:
         if cr.get('ret') == 'raises':
             why.add('creator-raises')
+    return sorted(why)
+
+
+def extended(case):
+    """the edge kinds of created tasks that need the extended model M1+X (Model/DelayedX.lean); [] = plain M1+"""
+    why = set()
+    for cr in case['creators']:
         for y in cr['yields']:
-            for k in ('setup', 'calc_dep', 'getargs'):
+            for k in ('setup', 'calc_dep', 'getargs', 'wild'):
                 if y.get(k):
-                    why.add('created-task-with-' + k)
+                    why.add('wildcard-task_dep' if k == 'wild' else k)
     return sorted(why)
 
 
@@ -256,11 +291,18 @@ def analyse(case):
             utd.add(t['name'])
         if t['fails']:
             fails.add(t['name'])
+    table0 = [n_ for n_, _, _, _, _ in load_order(case)]
     for c, cr in enumerate(case['creators']):
         for T in cand:
             if T not in placeholders(cr):
                 continue        # `to_load` of a loader object of creator c is one of its placeholders (since 46c8565 always)
             lst = make_tasks(cr, T)
+            for d in lst:
+                # a wildcard task_dep: the monitors' dependency table takes what is certainly in the task table when
+                # the batch is registered -- the loaded tasks / placeholders and the tasks of the same batch
+                for pat in d.get('wild', []):
+                    d['extra'] = d.get('extra', []) + [n_ for n_ in table0 + [x['name'] for x in lst if x['name'] not in table0]
+                                                       if fnmatch.fnmatch(n_, pat)]
             for d in lst:
                 nid(d['name'])
                 for x in d['deps'] + d['fileDep'] + d['targets'] + d.get('extra', []):
@@ -299,6 +341,37 @@ def analyse(case):
             'cand': cand, 'subwords': subwords}
 
 
+def twin_base(case, cr):
+    """the creator `cr` is a second INSTANCE of the class of (wave 6): the creator it shares the decorated method
+    (and so the @create_after arguments and the source line) with, or None"""
+    t = cr.get('twin_of')
+    if not t:
+        return None
+    for a in case['creators']:
+        if a['fname'] == t and a is not cr and not a.get('creates') and not cr.get('creates') \
+                and not a.get('params') and not cr.get('params'):
+            return a
+    return None
+
+
+def eff_order(case):
+    """case['order'] as load_tasks sees it: creators are ordered by source line (stable), and the creator of a second
+    instance has the line of the shared method -- it comes right after the first instance"""
+    order = list(case['order'])
+    for cr in case['creators']:
+        a = twin_base(case, cr)
+        if a is not None and cr['fname'] in order and a['fname'] in order:
+            order.remove(cr['fname'])
+            order.insert(order.index(a['fname']) + 1, cr['fname'])
+    return order
+
+
+def twin_view(case, cr):
+    """the @create_after arguments in force for `cr`: those of the shared method for a second instance"""
+    a = twin_base(case, cr)
+    return cr if a is None else dict(cr, executed=a['executed'], regex=a['regex'])
+
+
 def load_order(case):
     """task table after load_tasks / TaskControl.__init__: (name, deps, loader index|None, targets)"""
     an_loaders = []
@@ -306,7 +379,7 @@ def load_order(case):
         for p in placeholders(cr):
             an_loaders.append((p, c))
     out = []
-    for item in case['order']:
+    for item in eff_order(case):
         if item in ('@static', '@late'):
             for t in case['static']:
                 if bool(t.get('late')) == (item == '@late'):
@@ -326,12 +399,20 @@ def to_request(case, obs, an=None, op='check'):
     tasks = [[ix[n], {'deps': [ix[d] for d in deps], 'loader': l, 'fileDep': [], 'targets': [ix[f] for f in tg],
                       'act': act}]
              for n, deps, l, tg, act in load_order(case)]
+    pats = sorted(set(p_ for _, _, lst in an['make'] for d in lst for p_ in d.get('wild', [])))
     req = {'model': 'delayed', 'op': op, 'tasks': tasks,
+           'wmatch': [[i, [ix[n_] for n_ in an['names'] if fnmatch.fnmatch(n_, p_)]] for i, p_ in enumerate(pats)],
            'targets': [[ix[f], ix[t]] for f, t in an['static_targets'].items()],
            'loaders': [{'creator': c, 'exec': (ix[case['creators'][c]['executed']]
                                                if case['creators'][c]['executed'] else None),
                         'regex': bool(case['creators'][c]['regex'])} for p, c in an['loaders']],
+           'x': bool(extended(case)),
+           'delivers': [[ix[t['name']], [ix[d] for d in t['delivers']['task_dep']]] for t in case['static']
+                        if t.get('kind') == 'calc' and not t['fails']],
            'make': [[c, ix[T], [{'name': ix[d['name']], 'deps': [ix[x] for x in d['deps'] + d.get('extra', [])],
+                                 'tdeps': [ix[x] for x in d['deps']], 'setup': [ix[x] for x in d.get('setup', [])],
+                                 'calcDep': [ix[x] for x in d.get('calcDep', [])],
+                                 'wild': [pats.index(p_) for p_ in d.get('wild', [])],
                                  'fileDep': [ix[x] for x in d['fileDep']],
                                  'targets': [ix[x] for x in d['targets']], 'act': not d['group']}
                                 for d in lst]] for c, T, lst in an['make']],
@@ -419,8 +500,8 @@ def build_namespace(case, rec):
         def item(y):
             # the task's id is only known once its name is: the action looks it up by the name doit gave it
             d = {'actions': [NamedAct(list(y['targets']), y['fails'], want_args=bool(y.get('getargs')))]}
-            if y['task_dep']:
-                d['task_dep'] = list(y['task_dep'])
+            if y['task_dep'] or y.get('wild'):
+                d['task_dep'] = list(y['task_dep']) + list(y.get('wild') or [])
             if y['targets']:
                 d['targets'] = list(y['targets'])
             if y.get('file_dep'):
@@ -477,7 +558,7 @@ def build_namespace(case, rec):
 
     bodies = {}
     meta = {}
-    for item_ in case['order']:
+    for item_ in eff_order(case):
         if item_ == '@static':
             bodies['task_static0'] = (static_gen(False), None)
         elif item_ == '@late':
@@ -498,9 +579,12 @@ def build_namespace(case, rec):
         env['_body_%d' % i] = body
         if kw is None:
             src += 'def %s():\n    return _body_%d()\n\n' % (key, i)
-        elif meta[key].get('bound'):
+        elif twin_base(case, meta[key]) is not None:
+            pass    # a second instance of the class of its twin: no source of its own
+        elif meta[key].get('bound') or any(twin_base(case, o) is meta[key] for o in case['creators']):
             # the creator is a bound method of an object living in the namespace
-            src += 'class K_%s(object):\n    def %s(self, **kw):\n        return _body_%d(**kw)\n' % (key, key, i)
+            src += ('class K_%s(object):\n    def __init__(self, body):\n        self._body = body\n'
+                    '    def %s(self, **kw):\n        return self._body(**kw)\n' % (key, key))
         else:
             src += 'def %s(**kw):\n    return _body_%d(**kw)\n\n' % (key, i)
     linecache.cache[fname] = (len(src), None, src.splitlines(True), fname)
@@ -510,11 +594,17 @@ def build_namespace(case, rec):
             ns[key] = env[key]
             continue
         cr = meta[key]
-        f = env['K_' + key].__dict__[key] if cr.get('bound') else env[key]
+        tb = twin_base(case, cr)
+        if tb is not None:
+            # two instances of one class export the same @create_after method as task-creators
+            ns[key] = getattr(env['K_task_' + tb['fname']](body), 'task_' + tb['fname'])
+            continue
+        is_bound = cr.get('bound') or any(twin_base(case, o) is cr for o in case['creators'])
+        f = env['K_' + key].__dict__[key] if is_bound else env[key]
         if cr.get('params'):
             f = task_params([{'name': 'p', 'long': 'p', 'default': cr['params']['default']}])(f)
         f = create_after(**kw)(f)
-        ns[key] = getattr(env['K_' + key](), key) if cr.get('bound') else f
+        ns[key] = getattr(env['K_' + key](body), key) if is_bound else f
     ns['DOIT_CONFIG'] = {'dep_file': 'db.json', 'backend': 'json', 'verbosity': 0, 'reporter': runlib.RecReporter}
     if shared is not None:
         shared['ns'] = ns
@@ -788,7 +878,7 @@ def gen_case(rng, runner=None, knobs=None):
                     y['utd'] = False
             y['fails'] = rng.random() < k.get('p_fail', 0.08)
         # attributes of created tasks: uptodate callable (modelled through the up-to-date oracle); setup, calc_dep,
-        # getargs (outside M1+: such cases run monitors-only)
+        # getargs (wave 5: inside the extended model M1+X, see `extended`)
         for j, y in enumerate(yields):
             if rng.random() < k.get('p_utd_fn', 0.15):
                 y['utd_fn'] = rng.random() < 0.6
@@ -798,6 +888,14 @@ def gen_case(rng, runner=None, knobs=None):
             if rng.random() < k.get('p_calc_dep', 0.3) and any(t.get('kind') == 'calc' for t in static):
                 t = [t for t in static if t.get('kind') == 'calc'][0]
                 y['calc_dep'] = [{'task': t['name'], 'delivers': list(t['delivers']['task_dep'])}]
+            if rng.random() < k.get('p_wild', 0.1):
+                # a wildcard task_dep (repair 71e546b: expanded against the task table when the batch is registered)
+                import fnmatch as _fn
+                pats = ['s*', 'grp:*'] + [yield_name(yy, fname)[:-1] + '*' for yy in yields[:j]]
+                pats = [p_ for p_ in pats if not _fn.fnmatch(yield_name(y, fname), p_)
+                        and not any(_fn.fnmatch(p2, p_) for p2 in (creates or [fname]))]
+                if pats:
+                    y['wild'] = [rng.choice(pats)]
             if j and rng.random() < k.get('p_getargs', 0.1):
                 # a value computed by an earlier task of the same creator -- a sub-task of the delayed group
                 src = rng.randrange(j)
@@ -844,6 +942,19 @@ def gen_case(rng, runner=None, knobs=None):
         rest = order[1:]
         rng.shuffle(rest)
         order = rest[:1] + head + rest[1:] if rng.random() < 0.5 else head + rest
+    twins = [i for i in range(1, len(creators)) if not creators[i]['creates'] and not creators[i - 1]['creates']]
+    if twins and rng.random() < k.get('p_twin', 0.2):
+        # two INSTANCES of one class export the same @create_after method (`task_x = K(..).make; task_y = K(..).make`):
+        # one decorated function, hence the same executed / target_regex; the bound methods are different creators
+        i = rng.choice(twins)
+        a, b = creators[i - 1], creators[i]
+        b['executed'], b['regex'] = a['executed'], a['regex']
+        for x in (a, b):
+            x['bound'] = True
+            x.pop('params', None)
+        b['twin_of'] = a['fname']
+        order.remove(b['fname'])
+        order.insert(order.index(a['fname']) + 1, b['fname'])
     sel, auto = gen_sel(rng, static, creators, k)
     runner = runner or rng.choice(['serial', 'serial', 'thread', 'thread', 'thread'])
     case = {'static': static, 'creators': creators, 'order': order, 'sel': sel, 'auto': auto,
@@ -894,13 +1005,13 @@ def render(case):
             lines.append('@create_after(executed=%r, creates=%r, target_regex=%r)%s%s def task_%s: %s %s' % (
                 cr['executed'], cr['creates'], cr['regex'],
                 ' @task_params(p: default=%r, command line=%r)' % (cr['params']['default'], cr['params'].get('cmd'))
-                if cr.get('params') else '', ' bound-method' if cr.get('bound') else '', cr['fname'],
+                if cr.get('params') else '', (' bound-method' if cr.get('bound') else '') + (' SECOND-INSTANCE-of-the-class-of-task_%s' % cr['twin_of'] if cr.get('twin_of') else ''), cr['fname'],
                 {'gen': 'yields', 'dict': 'RETURNS the dict of its first item:', 'task': 'RETURNS a Task object of its first item:',
                  'none': 'RETURNS None; (would yield)', 'raises': 'RAISES; (would yield)'}[cr.get('ret', 'gen')],
                 ['%s%s deps=%s targets=%s%s%s%s' % (y.get('basename') or '', (':' + y['sub']) if y.get('sub') else '',
                                                      y['task_dep'], y['targets'],
                                                      (' file_dep=%s' % y['file_dep'] if y.get('file_dep') else '') +
-                                                     ''.join(' %s=%s' % (kk, y[kk]) for kk in ('setup', 'calc_dep', 'getargs', 'utd_fn')
+                                                     ''.join(' %s=%s' % (kk, y[kk]) for kk in ('setup', 'calc_dep', 'getargs', 'wild', 'utd_fn')
                                                              if y.get(kk) is not None and y.get(kk) != []),
                                                      ' utd' if y['utd'] else '',
                                                      ' FAILS' if y['fails'] else '') for y in cr['yields']]))
@@ -1020,6 +1131,9 @@ def run_case(case, j):
     r = runs_of(case)[j]
     c = dict(case, sel=r['sel'], auto=bool(r.get('auto')))
     c.pop('runs', None)
+    # a second instance of a class has the @create_after arguments of the shared method (also after shrinking)
+    c['creators'] = [twin_view(case, cr) for cr in case['creators']]
+    c['order'] = eff_order(case)
     return c
 
 
@@ -1150,7 +1264,7 @@ def _variants(case):
                                      if r['ref'] != j}
             yield c
         for j, y in enumerate(case['creators'][i]['yields']):
-            for key in ('setup', 'calc_dep', 'getargs', 'utd_fn'):
+            for key in ('setup', 'calc_dep', 'getargs', 'wild', 'utd_fn'):
                 if y.get(key) is not None and y.get(key) != []:
                     c = copy.deepcopy(case)
                     del c['creators'][i]['yields'][j][key]
@@ -1297,6 +1411,8 @@ def count_case(st, case, obs, ans):
         st.count('creator-returns:%s' % cr.get('ret', 'gen'))
         if cr.get('bound'):
             st.count('creator:bound-method')
+        if twin_base(case, cr) is not None:
+            st.count('creator:second-instance-of-one-class(shared @create_after method)')
         if cr.get('params'):
             st.count('creator:task_params%s' % ('+command-line-value' if cr['params'].get('cmd') else ''))
         ex = cr['executed']
@@ -1304,13 +1420,27 @@ def count_case(st, case, obs, ans):
         st.count('executed=%s' % ('none' if not ex else 'unknown-task' if ex == 'nosuch' else
                                   'static-' + kinds[ex] if ex in kinds else 'delayed-task'))
         for y in cr['yields']:
-            for kk in ('setup', 'calc_dep', 'getargs'):
+            for kk in ('setup', 'calc_dep', 'getargs', 'wild'):
                 if y.get(kk):
                     st.count('created-task:%s' % kk)
             if y.get('utd_fn') is not None:
                 st.count('created-task:uptodate-callable=%s' % y['utd_fn'])
     for why in unmodelled(case):
         st.count('monitors-only(outside M1+):%s' % why)
+    if extended(case) and ans.get('x'):
+        # K through the extended model M1+X (Model/DelayedX.lean): which of its new transitions the accepted run took
+        st.count('K:extended-model(M1+X)')
+        for why in extended(case):
+            st.count('K:extended-model(M1+X):created-task-with-%s' % why)
+        xf = ans.get('x_features') or {}
+        for key, label in (('setup_two_selects', 'X:selectStep:setup-task-selected-twice-then-started'),
+                           ('setup_not_scheduled', 'X:selectStep:setup-owner-utd-or-unmet(setup-tasks-not-scheduled)'),
+                           ('calc_processed', 'X:addWaitCalc/wakeOne:calc_dep-list-processed'),
+                           ('calc_delivered', 'X:calcNode:task_dep-delivered-by-calc_dep')):
+            if xf.get(key):
+                st.count(label, xf[key])
+        if ans.get('accept') and xf.get('start_after_all') is False:
+            st.count('X:startAfterOK-false-on-accepted-model-run')
     if obs.get('getarg'):
         st.count('getargs-values-checked', len(obs['getarg']))
     if obs.get('creator_kw'):
